@@ -36,6 +36,7 @@ type c11Case struct {
 	Size  int      `json:"size"`
 	Page  int      `json:"page"`
 	Query int      `json:"query"`
+	Sort  int      `json:"sort"` // 0 "ip", 1 "ip asc", 2 "ip desc"
 }
 
 func genDNSLabel(t *rapid.T, label string, max int) string {
@@ -98,6 +99,7 @@ func genC11() *rapid.Generator[c11Case] {
 			c.Page = rapid.IntRange(0, 6).Draw(t, "pageSmall")
 		}
 		c.Query = rapid.IntRange(0, 3).Draw(t, "query")
+		c.Sort = rapid.IntRange(0, 2).Draw(t, "sort")
 		return c
 	})
 }
@@ -185,7 +187,8 @@ func checkC11(c c11Case, r *vcore.Rec) *vcore.Failure {
 		}
 	}
 	// (e) paging
-	q := fmt.Sprintf("/v1/ip?size=%d&page=%d&sort=ip", c.Size, c.Page)
+	sortParam := []string{"ip", "ip%20asc", "ip%20desc"}[c.Sort%3]
+	q := fmt.Sprintf("/v1/ip?size=%d&page=%d&sort=%s", c.Size, c.Page, sortParam)
 	code, body := x.HTTP("GET", q, nil)
 	if code != 200 {
 		return vcore.Failf("c11:list_status", "GET %s -> %d %s", q, code, body)
@@ -209,7 +212,7 @@ func checkC11(c c11Case, r *vcore.Rec) *vcore.Failure {
 		return vcore.Failf("c11:total_pages", "totalPages %d with size %d for %d elements", pages, size, total)
 	}
 	for pg := 0; pg < pages; pg++ {
-		code, body := x.HTTP("GET", fmt.Sprintf("/v1/ip?size=%d&page=%d&sort=ip", size, pg), nil)
+		code, body := x.HTTP("GET", fmt.Sprintf("/v1/ip?size=%d&page=%d&sort=%s", size, pg, sortParam), nil)
 		var lr api.ListIPResp
 		if code != 200 || json.Unmarshal([]byte(body), &lr) != nil {
 			return vcore.Failf("c11:list_status", "page %d -> %d", pg, code)
@@ -231,7 +234,14 @@ func checkC11(c c11Case, r *vcore.Rec) *vcore.Failure {
 	if len(seen) != total {
 		return vcore.Failf("c11:paging", "walking the pages shows %d distinct IPs, IPAM holds %d", len(seen), total)
 	}
+	// the walk is in the requested order (the API orders IPs as strings)
+	for i := 1; i < len(entries); i++ {
+		if asc := entries[i-1].IP < entries[i].IP; asc == (c.Sort%3 == 2) {
+			return vcore.Failf("c11:order", "sort=%s: %s is listed before %s", sortParam, entries[i-1].IP, entries[i].IP)
+		}
+	}
 	r.ClassIf(pages >= 2, "multi_page")
+	r.ClassIf(c.Sort%3 == 2, "sorted_descending")
 	r.ClassIf(len(kinds) >= 3, "three_owner_kinds")
 	if len(kinds) >= 3 && pages >= 2 {
 		r.NonTrivial()
